@@ -100,25 +100,39 @@ fn check(ctx: &mut Ctx, index: u64, label: &str, lists: &[Vec<u32>], expect_rang
     }
 }
 
-/// Zero-crossing hammer: persistent threads, released together (spinning on a generation counter) right at a counter value of
-/// 0 or just below the wrap, each taking a few serials per round. The skip-zero step is the one place where handing out a serial
-/// is more than a single atomic operation; a storm crosses it once, the hammer crosses it `rounds` times under full contention.
+/// Zero-crossing hammer: persistent threads, released together right at a counter value of 0 or just below the wrap, each
+/// taking a few serials per round. The skip-zero step is the one place where handing out a serial is more than a single atomic
+/// operation; a storm crosses it once, the hammer crosses it `rounds` times under full contention.
+/// The release is two-staged: the coordinator sets the counter and opens the round (generation counter), then the workers
+/// rendezvous among themselves (arrival counter) — so at the moment the last one arrives every worker that is still spinning is
+/// on a CPU, whatever else the machine is doing — and only then take their serials.
 /// Returns, per round, the serials taken by each thread.
 fn hammer(threads: usize, rounds: usize, per: usize, seed: u64) -> Vec<(u32, Vec<Vec<u32>>)> {
     use std::sync::atomic::{AtomicUsize, Ordering};
     let gen = Arc::new(AtomicUsize::new(0));
+    let arrived = Arc::new(AtomicUsize::new(0));
     let done = Arc::new(AtomicUsize::new(0));
     let results: Arc<std::sync::Mutex<Vec<Vec<Vec<u32>>>>> = Arc::new(std::sync::Mutex::new(vec![vec![Vec::new(); threads]; rounds]));
     let mut hs = Vec::new();
     for t in 0..threads {
-        let (gen, done, results) = (gen.clone(), done.clone(), results.clone());
+        let (gen, arrived, done, results) = (gen.clone(), arrived.clone(), done.clone(), results.clone());
         hs.push(std::thread::spawn(move || {
             let mut local: Vec<Vec<u32>> = Vec::with_capacity(rounds);
             for r in 0..rounds {
                 let mut spins = 0u32;
                 while gen.load(Ordering::Acquire) <= r {
                     spins += 1;
-                    if spins > 2_000 {
+                    if spins > 2_000 || cfg!(miri) {
+                        std::thread::yield_now();
+                    } else {
+                        std::hint::spin_loop();
+                    }
+                }
+                arrived.fetch_add(1, Ordering::AcqRel);
+                let mut spins = 0u32;
+                while arrived.load(Ordering::Acquire) < (r + 1) * threads {
+                    spins += 1;
+                    if spins > 5_000 || cfg!(miri) {
                         std::thread::yield_now();
                     } else {
                         std::hint::spin_loop();
@@ -149,14 +163,9 @@ fn hammer(threads: usize, rounds: usize, per: usize, seed: u64) -> Vec<(u32, Vec
         starts.push(start);
         zbus::message::verif_set_next_serial(start);
         gen.store(r + 1, Ordering::Release);
-        let mut spins = 0u32;
+        // the coordinator only waits: it gives its CPU away at once
         while done.load(Ordering::Acquire) < (r + 1) * threads {
-            spins += 1;
-            if spins > 2_000 {
-                std::thread::yield_now();
-            } else {
-                std::hint::spin_loop();
-            }
+            std::thread::yield_now();
         }
     }
     for h in hs {
@@ -166,61 +175,48 @@ fn hammer(threads: usize, rounds: usize, per: usize, seed: u64) -> Vec<(u32, Vec
     starts.into_iter().zip(res).collect()
 }
 
-pub fn run(ctx: &mut Ctx) {
-    // the zero-crossing hammer first
-    // (spinning threads: only two shards run it, with few threads, so that the machine is not oversubscribed by the gate itself)
-    // (under Miri threads are interleaved by the interpreter and a spin gate costs seconds per round: a token number of rounds)
-    let hammer_rounds = if cfg!(miri) { 12 } else if ctx.thorough() { 400_000 } else { 30_000 };
-    if ctx.want(8_000_000_000) && ctx.args.shard < 2 {
-        let mut rng = ctx.rng(8_000_000_000);
-        let threads = *rng.pick(&[3usize, 4]);
-        let note = format!("zero-crossing hammer threads={threads} rounds={hammer_rounds}");
-        ctx.guarded(8_000_000_000, &note, || json!({"threads": threads, "rounds": hammer_rounds}), |ctx| {
-            let out = hammer(threads, hammer_rounds, 3, rng.next_u64());
-            ctx.count("evaluations", 1);
-            ctx.count("class:zero-crossing-hammer", 1);
-            let mut interleaved = 0u64;
-            for (r, (start, lists)) in out.iter().enumerate() {
-                ctx.count("zero_crossings_under_contention", 1);
-                let mut owner: HashMap<u32, usize> = HashMap::new();
-                let mut all: Vec<u32> = Vec::new();
-                for (t, l) in lists.iter().enumerate() {
-                    for s in l {
-                        all.push(*s);
-                        if *s == 0 {
-                            ctx.finding(8_000_000_000, "zero-serial", "-", "zero-crossing-hammer", json!({"round": r, "counter_start": start, "thread": t, "serials": lists}));
-                        }
-                        if let Some(prev) = owner.insert(*s, t) {
-                            ctx.finding(8_000_000_000, "duplicate-serial", "-", "zero-crossing-hammer", json!({"round": r, "counter_start": start, "serial": s, "threads": [prev, t], "serials": lists}));
-                        }
-                    }
+/// Judge one batch of hammer rounds; returns the number of rounds in which the threads' serials interleaved.
+fn judge_hammer(ctx: &mut Ctx, first_round: usize, out: &[(u32, Vec<Vec<u32>>)]) -> u64 {
+    let mut interleaved = 0u64;
+    for (i, (start, lists)) in out.iter().enumerate() {
+        let r = first_round + i;
+        ctx.count("zero_crossings_under_contention", 1);
+        let mut owner: HashMap<u32, usize> = HashMap::new();
+        let mut all: Vec<u32> = Vec::new();
+        for (t, l) in lists.iter().enumerate() {
+            for s in l {
+                all.push(*s);
+                if *s == 0 {
+                    ctx.finding(8_000_000_000, "zero-serial", "-", "zero-crossing-hammer", json!({"round": r, "counter_start": start, "thread": t, "serials": lists}));
                 }
-                // the round is the contiguous range from the start, zero skipped
-                let mut want: Vec<u32> = Vec::new();
-                let mut x = *start;
-                while want.len() < all.len() {
-                    if x != 0 {
-                        want.push(x);
-                    }
-                    x = x.wrapping_add(1);
-                }
-                all.sort();
-                want.sort();
-                if all != want {
-                    ctx.finding(8_000_000_000, "serial-range-differs", "-", "zero-crossing-hammer", json!({"round": r, "counter_start": start, "serials": lists}));
-                }
-                // how parallel was it: rounds in which no thread's serials are one contiguous block
-                if lists.iter().any(|l| l.windows(2).any(|w| w[1] != w[0].wrapping_add(1) && !(w[0] == u32::MAX && w[1] == 1))) {
-                    interleaved += 1;
+                if let Some(prev) = owner.insert(*s, t) {
+                    ctx.finding(8_000_000_000, "duplicate-serial", "-", "zero-crossing-hammer", json!({"round": r, "counter_start": start, "serial": s, "threads": [prev, t], "serials": lists}));
                 }
             }
-            ctx.count("hammer_rounds_with_interleaved_threads", interleaved);
-            if let Some((start, lists)) = out.iter().find(|(s, _)| *s == 0 || *s == u32::MAX) {
-                ctx.sample(json!({"zero_crossing_round": {"counter_start": start, "serials_per_thread": lists}, "rounds": out.len(), "rounds_with_interleaved_threads": interleaved}));
+        }
+        // the round is the contiguous range from the start, zero skipped
+        let mut want: Vec<u32> = Vec::new();
+        let mut x = *start;
+        while want.len() < all.len() {
+            if x != 0 {
+                want.push(x);
             }
-            ctx.distinct(fnv("hammer") ^ interleaved);
-        });
+            x = x.wrapping_add(1);
+        }
+        all.sort();
+        want.sort();
+        if all != want {
+            ctx.finding(8_000_000_000, "serial-range-differs", "-", "zero-crossing-hammer", json!({"round": r, "counter_start": start, "serials": lists}));
+        }
+        // how parallel was it: rounds in which some thread's serials are not one contiguous block
+        if lists.iter().any(|l| l.windows(2).any(|w| w[1] != w[0].wrapping_add(1) && !(w[0] == u32::MAX && w[1] == 1))) {
+            interleaved += 1;
+        }
     }
+    interleaved
+}
+
+pub fn run(ctx: &mut Ctx) {
     // Each shard process owns its own counter, so shards are independent runs.
     let rounds = ctx.budget(56, 1120);
     for r in 0..rounds {
@@ -260,6 +256,59 @@ pub fn run(ctx: &mut Ctx) {
                 ctx.finding(9_000_000_000, "wrap-boundary-sequence", "-", "single-thread", json!({"got": got, "expected": [u32::MAX - 1, u32::MAX, 1, 2]}));
             }
             ctx.sample(json!({"boundary_sequence": got}));
+        });
+    }
+    // The zero-crossing hammer last: by then the sibling shards' storms (up to 16 threads each) are over or nearly so, and the
+    // spinning workers get CPUs of their own.
+    // (spinning threads: only two shards run it, with few threads, so that the machine is not oversubscribed by the gate itself)
+    // (under Miri threads are interleaved by the interpreter and a spin gate costs seconds per round: a token number of rounds)
+    // How contended a round is depends on what the machine is doing (the sibling shards' storms, other tenants of the host), so
+    // the amount of work is not fixed in advance: batches of rounds are run until BOTH the minimum number of rounds AND the
+    // wanted number of rounds with interleaved threads have been observed. Only if the round or wall-clock cap is reached first
+    // does the coverage gate (checklib/props.py) report the run as inconclusive.
+    let (min_rounds, max_rounds, want_interleaved, cap_secs): (usize, usize, u64, u64) = if cfg!(miri) {
+        (12, 12, 0, 0)
+    } else if ctx.thorough() {
+        (400_000, 12_000_000, 40_000, 1800)
+    } else {
+        (30_000, 6_000_000, 4_000, 600)
+    };
+    // never more spinning workers than the CPUs this process may use can run at once; with few CPUs one shard hammers, not two
+    let cpus = std::thread::available_parallelism().map(|n| n.get()).unwrap_or(1);
+    let hammer_shards: u64 = if cpus >= 8 { 2 } else { 1 };
+    let want_interleaved = want_interleaved * 2 / hammer_shards;
+    if ctx.want(8_000_000_000) && ctx.args.shard < hammer_shards {
+        let mut rng = ctx.rng(8_000_000_000);
+        let threads = (*rng.pick(&[3usize, 4])).min(cpus.saturating_sub(1)).max(2);
+        let note = format!("zero-crossing hammer threads={threads} rounds>={min_rounds}");
+        ctx.guarded(8_000_000_000, &note, || json!({"threads": threads, "min_rounds": min_rounds}), |ctx| {
+            let t0 = std::time::Instant::now();
+            let batch = if cfg!(miri) { 12 } else { 10_000 };
+            let (mut rounds, mut interleaved, mut batches) = (0usize, 0u64, 0u64);
+            let mut sampled = false;
+            ctx.count("evaluations", 1);
+            ctx.count("class:zero-crossing-hammer", 1);
+            loop {
+                let out = hammer(threads, batch, 3, rng.next_u64());
+                interleaved += judge_hammer(ctx, rounds, &out);
+                rounds += out.len();
+                batches += 1;
+                if !sampled {
+                    if let Some((start, lists)) = out.iter().find(|(s, _)| *s == 0 || *s == u32::MAX) {
+                        ctx.max_samples += 1; // the storms before used this shard's sample slots
+                        ctx.sample(json!({"zero_crossing_round": {"counter_start": start, "serials_per_thread": lists}, "threads": threads}));
+                        sampled = true;
+                    }
+                }
+                let enough = rounds >= min_rounds && interleaved >= want_interleaved;
+                if enough || rounds >= max_rounds || t0.elapsed().as_secs() >= cap_secs || ctx.findings_reported() > 0 {
+                    break;
+                }
+            }
+            ctx.count("hammer_rounds_with_interleaved_threads", interleaved);
+            ctx.count("hammer_batches", batches);
+            ctx.count("hammer_wall_ms", t0.elapsed().as_millis() as u64);
+            ctx.distinct(fnv("hammer") ^ interleaved);
         });
     }
 }
